@@ -274,6 +274,8 @@ Definition frun (c : conn) (ops : list fop) : conn := fold_left (fun c op => snd
      10 sid acked a b fin  STREAM delivery       11 sid acked  RESET_STREAM delivery    12 sid  peer opens
      13 n sid1..sidn   observe (not an operation)
      14 sid  stop_stream      15 sid  _write_stop_sending_frame      16 sid acked  STOP_SENDING delivery
+     17   credit observation (not an operation): prints used max_data; the tie emits it before EVERY
+          _write_stream_frame call, so the counter is compared between any two frames of one transmit
    output per op: outcome (0 ok | 1 sender-result.. | 2 max_offset sender-result.. | 3 ValueError |
      4 code QuicConnectionError | 5 ineligible | 6 no stream | 7 STOP_SENDING written);
    per observe: used max_data max_streams_bidi max_streams_uni #blocked_bidi #blocked_uni, then per listed
@@ -330,6 +332,7 @@ Fixpoint exec_flow (fuel : nat) (c : conn) (ops : list Z) : list Z :=
   | 13 :: t =>
       let '(sids, t) := tk_list t in
       obs_conn c ++ flat_map (obs_strm c) sids ++ exec_flow fuel c t
+  | 17 :: t => c_used c :: c_max_data c :: exec_flow fuel c t
   | _ =>
     match parse_op ops with
     | None => []
